@@ -180,7 +180,7 @@ def run_property(pm, tier="quick", seed=0, update_baseline=False):
             continue
         if r["status"] == "refuted":
             outcome = None
-            hook = getattr(pm, "REPLAY", {}).get(c.qual)
+            hook = getattr(pm, "REPLAY", {}).get(c.qual) or generic_replay(c)
             if hook is not None and r.get("model") is not None:
                 try:
                     outcome = hook(variant, r["model"], ob)
@@ -257,6 +257,52 @@ def run_property(pm, tier="quick", seed=0, update_baseline=False):
             led["__skipped__"] = rep.skipped_now
         json.dump(led, open(os.path.join(ROOT, "baseline", f"{pid}.json"), "w"), indent=0, sort_keys=True)
     return finish(pm, rep, obligations)
+
+
+def generic_replay(c):
+    """Replay for plain functions / static methods whose parameters are all simple values in the model: call the real function on
+    the model's inputs and evaluate the sidecar contract natively."""
+    if not hasattr(c, "requires_") or getattr(c, "qual", "").startswith("emitted"):
+        return None
+
+    def hook(variant, model, ob):
+        import importlib
+        import inspect
+        from . import monitor
+        modname, _, path = c.qual.partition(":")
+        obj = importlib.import_module(modname)
+        for part in path.split("."):
+            obj = getattr(obj, part)
+        sig = inspect.signature(obj)
+        import itertools
+        pools = []
+        names = []
+        for nme, prm in sig.parameters.items():
+            if nme in ("self", "cls"):
+                return {"confirmed": None, "detail": "method with receiver: no generic replay"}
+            names.append(nme)
+            if nme in model:
+                v = model[nme]
+                if isinstance(v, dict) and ("__opaque__" in v or "__set__" in v or "__absent__" in v):
+                    return {"confirmed": None, "detail": f"parameter {nme} not concretisable"}
+                pools.append([v])
+            else:
+                # the formula does not constrain this parameter: every value is a counterexample for the solver — sample a few
+                ann = str(prm.annotation)
+                pools.append(["", "a", "1a", "$", "class", "²"] if "str" in ann else ([0, 1, -1, 404, 500] if "int" in ann else [None]))
+        clause = ob.info.get("clause")
+        tried = 0
+        for combo in itertools.islice(itertools.product(*pools), 60):
+            bound = dict(zip(names, combo))
+            res = monitor.run_contract(c, lambda: monitor._call(obj, **bound), dict(bound))
+            tried += 1
+            if not res.pre_ok:
+                continue
+            failed = [f for f in res.failed if clause is None or f[0] == clause or ob.kind in ("nothrow", "raises-only")]
+            if failed:
+                return {"confirmed": True, "detail": f"native call {path}({bound!r}) -> {res.result!r} raised={res.raised!r} failed={res.failed}", "inputs": bound}
+        return {"confirmed": False, "detail": f"{tried} native call(s) on the counter-model inputs satisfy the contract"}
+    return hook
 
 
 def _is_known(known, ident):
